@@ -6,7 +6,7 @@ Copyright 2020, 2021 William W. Kimball, Jr. MBA MSIS
 """
 import sys
 from os.path import basename
-from typing import Any, Dict, List, Set, Tuple, Union
+from typing import Any, Dict, List, Optional, Set, Tuple, Union
 import json
 from io import StringIO
 from pathlib import Path
@@ -619,7 +619,7 @@ class Merger:
     def _insert_dict(
         self, insert_at: YAMLPath,
         lhs: Union[CommentedMap, CommentedSeq, CommentedSet],
-        rhs: CommentedMap
+        rhs: CommentedMap, target: Optional[NodeCoords] = None
     ) -> bool:
         """Insert an RHS dict merge result into the LHS document."""
         merge_performed = False
@@ -672,12 +672,14 @@ class Merger:
 
         if insert_at.is_root:
             self.data = merged_data
+        elif merged_data is not lhs:
+            Merger._replace_merge_target(target, merged_data)
         return merge_performed
 
     def _insert_list(
         self, insert_at: YAMLPath,
         lhs: Union[CommentedMap, CommentedSeq, CommentedSet],
-        rhs: CommentedSeq
+        rhs: CommentedSeq, target: Optional[NodeCoords] = None
     ) -> bool:
         """Insert an RHS list merge result into the LHS document."""
         merge_performed = False
@@ -713,12 +715,14 @@ class Merger:
 
         if insert_at.is_root:
             self.data = merged_data
+        elif merged_data is not lhs:
+            Merger._replace_merge_target(target, merged_data)
         return merge_performed
 
     def _insert_set(
         self, insert_at: YAMLPath,
         lhs: Union[CommentedMap, CommentedSeq, CommentedSet],
-        rhs: CommentedSet
+        rhs: CommentedSet, target: Optional[NodeCoords] = None
     ) -> bool:
         """Insert an RHS list merge result into the LHS document."""
         merge_performed = False
@@ -758,7 +762,23 @@ class Merger:
 
         if insert_at.is_root:
             self.data = merged_data
+        elif merged_data is not lhs:
+            Merger._replace_merge_target(target, merged_data)
         return merge_performed
+
+    @staticmethod
+    def _replace_merge_target(
+        target: Optional[NodeCoords], merged_data: Any
+    ) -> None:
+        """
+        Put a merge result in the place of the node it was merged into.
+
+        The replacing merge modes (RIGHT, and UNIQUE for Arrays) produce a new
+        node rather than changing the LHS node in place; below the document
+        root, that node must take the place of the merge target.
+        """
+        if target is not None and target.parent is not None:
+            target.parent[target.parentref] = merged_data
 
     def _insert_scalar(
         self, insert_at: YAMLPath, lhs: Any, lhs_proc: Processor, rhs: Any
@@ -871,15 +891,15 @@ class Merger:
                 merge_performed = True
             elif isinstance(rhs, CommentedMap):
                 merge_performed = self._insert_dict(
-                    insert_at, target_node, rhs)
+                    insert_at, target_node, rhs, node_coord)
             elif isinstance(rhs, CommentedSeq):
                 # The RHS document root is a list
                 merge_performed = self._insert_list(
-                    insert_at, target_node, rhs)
+                    insert_at, target_node, rhs, node_coord)
             elif isinstance(rhs, CommentedSet):
                 # The RHS document is a set
                 merge_performed = self._insert_set(
-                    insert_at, target_node, rhs)
+                    insert_at, target_node, rhs, node_coord)
             else:
                 # The RHS document root is a Scalar value
                 merge_performed = self._insert_scalar(
